@@ -48,7 +48,7 @@ type presented struct {
 	msg, val  []byte
 }
 
-var sigMutKinds = []string{"flipsig", "flipsig", "append", "append", "trunc", "empty", "negr", "negs", "zeror", "zeros", "nonminr", "nonmins", "swaprs", "extra", "extra", "longlen", "compl", "compl", "addn", "dertweak", "dertweak"}
+var sigMutKinds = []string{"flipsig", "flipsig", "append", "append", "trunc", "empty", "negr", "negs", "zeror", "zeros", "nonminr", "nonmins", "swaprs", "extra", "extra", "longlen", "compl", "compl", "addn", "dertweak", "dertweak", "stripr", "strips", "stripr", "strips"}
 
 func genSigMut(t *rapid.T, label string) Mut {
 	m := Mut{Kind: pickStr(t, label+".sk", sigMutKinds)}
@@ -141,6 +141,13 @@ func applyMut(p *presented, m Mut) string {
 	switch m.Kind {
 	case "flipmsg":
 		p.msg = flipBit(p.msg, m.A)
+	case "wsmsg": // white space / line ending / BOM added before or after the signed bytes
+		ws := wsChoices[(m.A/2)%len(wsChoices)]
+		if m.A%2 == 0 {
+			p.msg = append(append([]byte(nil), p.msg...), ws...)
+		} else {
+			p.msg = append([]byte(ws), p.msg...)
+		}
 	case "flipsig":
 		p.val = flipBit(p.val, m.A)
 	case "hash":
@@ -181,6 +188,7 @@ func applyMut(p *presented, m Mut) string {
 		rc, sc := derx.IntContent(r), derx.IntContent(s)
 		var extra []byte
 		long := false
+		kindOut := m.Kind
 		n := new(big.Int)
 		if p.key != nil {
 			if o := groupOrder(p.key); o != nil {
@@ -204,6 +212,31 @@ func applyMut(p *presented, m Mut) string {
 			rc, sc = sc, rc
 		case "extra":
 			extra = m.Data
+		case "stripr", "strips":
+			// drop the 0x00 sign octet of a component whose top bit is set: the DER value becomes negative
+			// (a parser that reads the content as unsigned would still see the right number)
+			strip := func(c []byte) ([]byte, bool) {
+				if len(c) > 1 && c[0] == 0 && c[1]&0x80 != 0 {
+					return c[1:], true
+				}
+				return c, false
+			}
+			var ok bool
+			if m.Kind == "stripr" {
+				if rc, ok = strip(rc); !ok {
+					sc, ok = strip(sc)
+				}
+			} else {
+				if sc, ok = strip(sc); !ok {
+					rc, ok = strip(rc)
+				}
+			}
+			if !ok { // neither component carries a sign octet: negate instead
+				sc = derx.IntContent(new(big.Int).Neg(s))
+				kindOut = "negs"
+			} else {
+				kindOut = "stripsign"
+			}
 		case "longlen":
 			long = true
 		case "dertweak":
@@ -238,9 +271,12 @@ func applyMut(p *presented, m Mut) string {
 			out = derx.Seq(body)
 		}
 		p.val = append(out, rest...)
+		return kindOut
 	}
 	return m.Kind
 }
+
+var wsChoices = []string{"\n", "\r\n", "\r", " ", "\t", "\xef\xbb\xbf", "\n\n", " \n"}
 
 const nTweaks = 12
 
